@@ -1321,7 +1321,7 @@ def run(ctx: Ctx):
     if ctx.thorough():
         run_scenarios(ctx, rng, None, 6)          # every packet index, every role
     else:
-        run_scenarios(ctx, rng, 12, 4)
+        run_scenarios(ctx, rng, 20, 5)
     for cls in sorted(overlay_classes()):
         if not any(k == f"scenario:{cls}" for k in ctx.counts):
             raise InfraError(f"no scenario ran for shipped overlay class {cls}")
